@@ -3,6 +3,7 @@
 //!
 //!   skv-harness <prop> gen  --seed S --cases N --tier quick|thorough --out ops.txt --stats stats.json
 //!   skv-harness <prop> exec --ops ops.txt --out impl.txt
+mod c04;
 mod c08;
 mod c12;
 mod rng;
@@ -60,6 +61,8 @@ fn main() {
     let cmd = argv[2].as_str();
     let args = parse_args(&argv[3..]);
     let rc = match (prop, cmd) {
+        ("c04", "gen") => c04::gen(&args),
+        ("c04", "exec") => c04::exec(&args),
         ("c08", "gen") => c08::gen(&args),
         ("c08", "exec") => c08::exec(&args),
         ("c12", "gen") => c12::gen(&args),
